@@ -108,10 +108,15 @@ class Flow(object):
         # type: () -> str
         return 'Flow({}, {})'.format(self.hint, self._names)
 
-    def add_name(self, name):
-        # type: (Name) -> None
+    def add_name(self, name, local=True):
+        # type: (Name, bool) -> None
         name.scope = self.scope
-        if name.name in self.scope.globals and self.scope is not self.scope.top:
+        if not local:
+            # a comprehension variable: visible in the comprehension's regions,
+            # neither a local of the enclosing scope nor subject to its
+            # global/nonlocal declarations
+            insert_loc(self._names, name)
+        elif name.name in self.scope.globals and self.scope is not self.scope.top:
             self.scope.top.add_global(name)
         elif name.name in self.scope.nonlocals:
             # rebinds a variable of an enclosing function: the name stays
